@@ -22,7 +22,12 @@ func (p opPattern) match(fn, kind string) bool {
 	if p.Fn == "" && p.Kind == "" {
 		return false
 	}
-	return strings.Contains(fn, p.Fn) && strings.Contains(kind, p.Kind)
+	for _, part := range strings.Split(p.Fn, "&") {
+		if !strings.Contains(fn, part) {
+			return false
+		}
+	}
+	return strings.Contains(kind, p.Kind)
 }
 
 type windowSpec struct {
@@ -58,8 +63,12 @@ func (ws *windowSpec) reset() {
 	}
 }
 
-func (ws *windowSpec) observe(w *W, t *Thread, o opSpec, exec *Term) {
+func (ws *windowSpec) observe(w *W, t *Thread, o0 opSpec, exec *Term) {
 	fn := strings.Join(w.curFn, ">")
+	o := o0
+	if o.label != "" {
+		o.kind = o.kind + "(" + o.label + ")"
+	}
 	if ws.Intruder.match(fn, o.kind) {
 		others := False
 		for tid, in := range ws.inWin {
